@@ -1,7 +1,7 @@
 // C17 / C09.d numeric kernels: Quality settings -> segment counts, exact
 // trigonometry at multiples of 90 degrees.
 #include "vf_harness.h"
-#include "/repo/src/manifold.cpp"
+#include "manifold.cpp"
 using namespace manifold;
 
 // every setter argument, every radius: no UB, documented result shape
